@@ -93,6 +93,11 @@ def make_param(eng, st, name, kind):
         return kind(eng, st)
     if kind == 'int':
         return IntV(smt.fresh(name, smt.Int))
+    if kind in ('np.int8', 'np.uint8'):
+        lo, hi = (-128, 127) if kind == 'np.int8' else (0, 255)
+        t = smt.fresh(name, smt.Int)
+        st.pc.append(z3.And(t >= lo, t <= hi))
+        return NpIntV(t, lo, hi, kind)
     if kind == 'key':
         return KeyV(smt.fresh(name, smt.Key))
     if kind == 'bool':
